@@ -199,7 +199,7 @@ func init() {
 
 type broker struct {
 	ln   net.Listener
-	mode string // ok | nack | acceptclose
+	mode string // ok | nack | acceptclose | chanclose | connclose | drop
 	mu   sync.Mutex
 	msgs [][]byte
 	wg   sync.WaitGroup
@@ -277,7 +277,31 @@ func (b *broker) serve(c net.Conn) {
 		pubCh    uint16
 		tag      uint64
 	)
+	dropped := false
+	shortstr := func(t string) []byte { return append([]byte{byte(len(t))}, t...) }
 	finish := func() {
+		switch b.mode {
+		case "chanclose": // publish refused the AMQP way: no basic.nack, the channel is closed (403); record not stored
+			arg := binary.BigEndian.AppendUint16(nil, 403)
+			arg = append(arg, shortstr("ACCESS_REFUSED - write access to exchange refused")...)
+			arg = binary.BigEndian.AppendUint16(arg, 60)
+			arg = binary.BigEndian.AppendUint16(arg, 40)
+			_ = writeFrame(c, 1, pubCh, method(20, 40, arg...))
+			pending, body = false, nil
+			return
+		case "connclose": // broker shuts the connection down (320) instead of confirming; record not stored
+			arg := binary.BigEndian.AppendUint16(nil, 320)
+			arg = append(arg, shortstr("CONNECTION_FORCED - broker forced connection closure")...)
+			arg = binary.BigEndian.AppendUint16(arg, 0)
+			arg = binary.BigEndian.AppendUint16(arg, 0)
+			_ = writeFrame(c, 1, 0, method(10, 50, arg...))
+			pending, body = false, nil
+			return
+		case "drop": // the TCP connection dies after the publish was sent; no confirm ever arrives
+			dropped = true
+			pending, body = false, nil
+			return
+		}
 		b.mu.Lock()
 		b.msgs = append(b.msgs, body)
 		b.mu.Unlock()
@@ -354,6 +378,9 @@ func (b *broker) serve(c net.Conn) {
 		default:
 			return
 		}
+		if dropped {
+			return
+		}
 	}
 }
 
@@ -373,7 +400,7 @@ var (
 	digests  = []string{"sha256", "sha384", "sha512", "bogus"}
 	bodies   = []string{"good", "bad"}
 	fmodes   = []string{"ok", "none", "missingdir", "isdir", "parentfile", "devfull", "symloop"}
-	amodes   = []string{"none", "ok", "refused", "acceptclose", "nack"}
+	amodes   = []string{"none", "ok", "refused", "acceptclose", "nack", "chanclose", "connclose", "drop"}
 )
 
 func (q *req) String() string {
@@ -461,6 +488,7 @@ func Gen(w *bufio.Writer, seed uint64, tier string) {
 	emit("conc", "ok", "none", 5, mix(64, anyReq))
 	emit("conc", "devfull", "none", 0, mix(16, validReq))
 	emit("conc", "ok", "nack", 0, mix(16, validReq))
+	emit("conc", "ok", "chanclose", 0, mix(8, validReq))
 	emit("conc", "missingdir", "ok", 0, mix(16, validReq))
 	// 3. seeded random scenarios
 	n := 80
@@ -577,7 +605,7 @@ func setup(fmode, amode string, pre int) (sc *scenario, err error) {
 	cfg.AuditFile = sc.auditPath
 	switch amode {
 	case "none":
-	case "ok", "nack", "acceptclose":
+	case "ok", "nack", "acceptclose", "chanclose", "connclose", "drop":
 		sc.br = newBroker(amode)
 		cfg.Amqp = &config.AmqpConfig{URL: sc.br.url()}
 	case "refused":
